@@ -383,3 +383,126 @@ def bool_targets(t):
     if 0 in arms:
         return (arms.get(1, t['else']), arms[0])
     return (arms.get(1), t['else'])
+
+
+# ------------------------------------------------------------------ A5 variant <-> field agreement
+def _places_in_stmt(s):
+    out = []
+    if 'lhs' in s:
+        out.append(s['lhs'])
+    rv = s.get('rv')
+    if rv:
+        if 'p' in rv:
+            out.append(rv['p'])
+        for k in ('a', 'b'):
+            if k in rv:
+                p = op_place(rv[k])
+                if p:
+                    out.append(p)
+        for o in rv.get('ops', []):
+            p = op_place(o)
+            if p:
+                out.append(p)
+    return out
+
+
+def _places_in_term(t):
+    out = []
+    for o in t.get('args', []):
+        p = op_place(o)
+        if p:
+            out.append(p)
+    for k in ('dest', 'p'):
+        if k in t and isinstance(t[k], list):
+            out.append(t[k])
+    if 'op' in t:
+        p = op_place(t['op'])
+        if p:
+            out.append(p)
+    return out
+
+
+def block_field_accesses(body, bb, user_only=True):
+    """[(adt, field, line)] of all field projections touched in block bb"""
+    out = []
+    for s in body.stmts(bb):
+        if user_only and s.get('x', '').startswith('m:'):
+            continue
+        for p in _places_in_stmt(s):
+            for adt, f in place_fields(p):
+                out.append((adt, f, s.get('ln')))
+    t = body.term(bb)
+    if not (user_only and t.get('x', '').startswith('m:')):
+        for p in _places_in_term(t):
+            for adt, f in place_fields(p):
+                out.append((adt, f, t.get('ln')))
+    return out
+
+
+def enum_switches(body, ty_names):
+    """[(bb, term, enum_type)] switches on the discriminant of a value whose type is one of ty_names"""
+    out = []
+    for bb in sorted(body.reach):
+        t = body.term(bb)
+        if t.get('t') != 'switch':
+            continue
+        ty = body._discr_type(bb, t)
+        if ty is None:
+            continue
+        ty0 = re.sub(r"^&(?:'\S+ )?(?:mut )?", '', ty)
+        if ty0 in ty_names:
+            out.append((bb, t, ty0))
+    return out
+
+
+def arm_regions(body, bb):
+    """{switch value (or 'else'): set of blocks that execute only when that arm was taken}"""
+    t = body.term(bb)
+    out = {}
+    seen = {}
+    for v, tb in t['arms'] + [['else', t['else']]]:
+        if body.is_unreachable_block(tb):
+            continue
+        preds = [p for p in body.pred(tb) if p in body.reach]
+        if len(preds) != 1:
+            out[v] = set()
+            continue
+        out[v] = {x for x in body.reach if body.dominates(tb, x)}
+    return out
+
+
+def variant_name(ctx, enum_ty, value):
+    adt = ctx.facts.adts.get(enum_ty)
+    if not adt:
+        return None
+    for v in adt['variants']:
+        if v.get('discr') == str(value):
+            return v['name']
+    return None
+
+
+def enum_variant_names(ctx, enum_ty):
+    adt = ctx.facts.adts.get(enum_ty)
+    return [v['name'] for v in adt['variants']] if adt else []
+
+
+# ------------------------------------------------------------------ interprocedural guard
+def guarded_interproc(ctx, fn_def, body, bb, lit_pred, depth=2):
+    """Is block bb of `body` (the user body of fn_def) executed only under a literal satisfying lit_pred —
+    either locally, or at every call site of fn_def (recursively up to depth)?  returns (bool, how)"""
+    for e, truth, lit in bool_literals_at(body, bb):
+        if lit_pred(e, truth):
+            return True, 'guard in %s' % short(fn_def)
+    if depth <= 0:
+        return False, 'no guard'
+    sites = callers_of(ctx, fn_def)
+    if not sites:
+        return False, 'no guard in %s and it has no callers' % short(fn_def)
+    hows = []
+    for d, c in sites:
+        cb = ctx.body(d)
+        ok, how = guarded_interproc(ctx, ctx.user_fn_of(d), cb, c.bb, lit_pred, depth - 1)
+        if not ok:
+            return False, 'call site %s in %s is not guarded' % (c.where(), short(ctx.user_fn_of(d)))
+        hows.append(how)
+    return True, 'every caller guards: ' + '; '.join(sorted(set(hows)))
